@@ -178,6 +178,7 @@ class AXIMaster:
     def __init__(self, axi, writes, reads, rng, ready_b=0.7, ready_r=0.7, long_stall=0.0, serial_writes=False):
         # serial_writes: one write burst at a time (AW and W of burst k only after the B of burst k-1, W only after its AW)
         self.serial_writes = serial_writes
+        self.scramble = False      # drive random payloads on AW / W / AR while their valid is low (don't-care values)
         self.axi = axi
         self.writes = writes
         self.reads = reads
@@ -241,6 +242,10 @@ class AXIMaster:
                         offers.append(self.cycle + 1)
             if not valid:
                 stm.append(ep.valid.eq(0))
+                if self.scramble and items:
+                    for k in fields_of(items[0]):
+                        sig = getattr(ep, k)
+                        stm.append(sig.eq(self.rng.getrandbits(len(sig))))
             if stm:
                 yield stm
             yield
